@@ -1696,6 +1696,8 @@ CONFIG = {
             {"file": "src/pointer.rs", "impl": "ParseError", "name": "invalid_encoding_len", "coq": "gen_ParseError_invalid_encoding_len"},
             {"file": "src/pointer.rs", "impl": "ParseError", "name": "is_no_leading_slash", "coq": "gen_ParseError_is_no_leading_slash"},
             {"file": "src/pointer.rs", "impl": "ParseError", "name": "is_invalid_encoding", "coq": "gen_ParseError_is_invalid_encoding"},
+            {"file": "src/pointer.rs", "impl": "ParseError", "trait": "Diagnostic", "name": "labels", "coq": "gen_ParseError_labels",
+             "param_types": {"subject": "String"}, "skip_lets": ["text"], "ret": ("opt", ("tuple", ["N", "N"]))},
         ]),
         ("Token", [
             {"file": "src/token.rs", "impl": "Token", "name": "from_encoded", "coq": "gen_Token_from_encoded"},
